@@ -57,6 +57,11 @@ E == T.ev[l]
 More == l <= Len(T.ev)
 Diagnose == "DIAG" \in DOMAIN IOEnv
 
+(* Named deviation, DISABLED unless IOEnv.DEV_FIRSTSTOP is set (the harness re-validates a rejected trace with it only to
+   classify the rejection and to have the rest of the run validated): the solver does not apply the stop test
+   2(fx-fval) <= ftol(|fx|+|fval|)+1e-20 after the FIRST direction loop (the reference does). *)
+DevFirstStop == "DEV_FIRSTSTOP" \in DOMAIN IOEnv
+
 AllTrue(cl) == \A i \in DOMAIN cl : cl[i][2]
 Probe(cl) == Diagnose => PrintT(<<"@@", ToJson([probe |-> tid, at |-> l,
                                    failing |-> {cl[i][1] : i \in {j \in DOMAIN cl : ~cl[j][2]}}])>>)
@@ -82,7 +87,7 @@ PostClauses(t, p, full) == <<
   <<"post:energy-history-length", p.ehlen = t.ehlen>>,
   <<"post:energy-history-last", p.ehlast = t.ehlast>>,
   <<"post:energy-history-previous", full => p.ehprev = t.ehprev>>,
-  <<"post:stop-rule", p.stop = t.stopped>> >>
+  <<IF t.iters = 1 THEN "post:stop-rule-after-the-first-iteration" ELSE "post:stop-rule", p.stop = t.stopped>> >>
 
 TStart ==
   /\ More /\ E.t = "start"
@@ -96,7 +101,7 @@ TStart ==
 TLoop ==
   /\ More /\ E.t = "loop"
   /\ LET ok == s.pc = "loop" /\ ~s.stopped /\ Len(E.ls) >= 1
-         post == IF ok THEN LoopF(s, E.ls, E.ncog) ELSE s
+         post == IF ok THEN LoopF(s, E.ls, IF DevFirstStop /\ s.iters = 0 THEN FALSE ELSE E.ncog) ELSE s
          cl == << <<"loop:direction-loop-out-of-turn-or-after-the-stop", ok>>,
                   <<"loop:N-line-searches-along-direc[0..N-1]-each-from-where-the-previous-ended", ok /\ ChainOK(s, E.ls)>>,
                   <<"loop:line-search-tolerance-is-xtol*100", \A i \in 1..Len(E.ls) : E.ls[i].tol>>,
